@@ -129,6 +129,15 @@ def run_op(op, sc, pps, r, d):
         net.map_obstacles_to_lanelets([o for o in sc.obstacles if isinstance(o, (StaticObstacle, DynamicObstacle))
                                        and o.initial_state.time_step == 0 and not o.initial_state.is_uncertain_position
                                        and not o.initial_state.is_uncertain_orientation])
+        net.lanelets_in_proximity(np.array(pts[0], dtype=float), 15.0)
+        from commonroad.scenario.state import KSState
+        try:
+            net.find_most_likely_lanelet_by_state([KSState(time_step=0, position=np.array(p_, dtype=float), orientation=0.3)
+                                                   for p_ in pts[:3]])
+        except Exception:
+            pass
+        for la in net.lanelets:
+            la.dynamic_obstacle_by_time_step(0), la.dynamic_obstacle_by_time_step(1)
     elif op == "lanelet-geometry":
         for la in sc.lanelet_network.lanelets:
             dd = la.distance
@@ -142,6 +151,7 @@ def run_op(op, sc, pps, r, d):
         net = sc.lanelet_network
         for la in net.lanelets:
             Lanelet.all_lanelets_by_merging_successors_from_lanelet(la, net, 60.0)
+            Lanelet.all_lanelets_by_merging_predecessors_from_lanelet(la, net, 60.0)
             for s in la.successor:
                 other = net.find_lanelet_by_id(s)
                 if other is not None:
